@@ -140,6 +140,66 @@ def walk_to_ops(walk):
     return ops
 
 
+def build_interrupt():
+    return vlib.build("scn_interrupt", ["sched/sched.cpp", "conc/scn_interrupt.cpp"], c13.SRCS, libs=["-ldl"])
+
+
+def check_interrupt_runs(ctx, binary, runs, tag):
+    """interrupt() from other threads racing with run(): executions under the cooperative scheduler."""
+    combined, results = vlib.run_sched_executions(binary, runs, ctx.work, tag)
+    ctx.evaluations += sum(r.get("steps", 0) for r in results)
+    bad = set()
+    for i, r in enumerate(results):
+        ctx.drift += r.get("diverged", 0)
+        if r["verdict"] != "done":
+            bad.add(i)
+            rp = ctx.save_replay("%s_%d.args" % (tag, i), ["@interrupt " + " ".join(runs[i]) + " --sched " + '"%s"' % r.get("choices", "")])
+            ctx.report("Server.interrupt:%s" % r["verdict"], rp, "interrupt scenario verdict %s (%s) for %s\nschedule: %s\n%s" % (
+                r["verdict"], r.get("failure", ""), " ".join(runs[i]), r.get("choices", "")[:500], r.get("stderr", "")[-800:]))
+    r, mism, done = vlib.validate_trace(SPECDIR, "InterruptAbsTrace", "InterruptAbsTrace.cfg", combined)
+    ctx.add_tlc("trace:" + tag, r, must_pass=False)
+    if r.violation or (not done and not r.broken):
+        ctx.broken.append("trace validation of %s failed: %s" % (tag, (r.violation or "incomplete")[:800]))
+    for line, why in mism:
+        for i, res in enumerate(results):
+            if res["lines"][0] <= line <= res["lines"][1] and i not in bad:
+                bad.add(i)
+                rp = ctx.save_replay("%s_%d.args" % (tag, i), ["@interrupt " + " ".join(runs[i]) + " --sched " + '"%s"' % res.get("choices", "")])
+                ctx.report("Server.interrupt:layer1:" + why, rp, "Layer-1 mismatch (%s) in interrupt scenario %s\nschedule: %s" % (why, " ".join(runs[i]), res.get("choices", "")[:500]))
+    ctx.traces += len(runs) - len(bad)
+    for a in runs:
+        ctx.distinct.add(hash(tuple(a)))
+
+
+def run_interrupt_part(ctx):
+    binary = build_interrupt()
+    cfgs = {"a": (1, 1, 0), "b": (2, 2, 0), "c": (2, 2, 1), "d": (3, 2, 0)}
+    for n in sorted(cfgs):
+        ni, nr, pre = cfgs[n]
+        dot = os.path.join(ctx.work, "int_%s.dot" % n)
+        r = vlib.tlc(SPECDIR, "InterruptImpl", "InterruptImpl_%s.cfg" % n, workers=4, timeout=600, dump=dot)
+        ctx.add_tlc("InterruptImpl_" + n, r)
+        if not r.ok:
+            continue
+        walks, nedges = vlib.graph_walks(dot, max_len=120, seed=ctx.seed)
+        os.remove(dot)
+        if ctx.quick and len(walks) > 80:
+            walks = ctx.rng.sample(walks, 80)
+        runs = [["runs=%d" % nr, "ints=%d" % ni, "pre=%d" % pre, "--seed", str(ctx.seed + i), "--spur", "0",
+                 "--sched", " ".join(str(st[1][0]) for st in w if st[1])] for i, w in enumerate(walks)]
+        check_interrupt_runs(ctx, binary, runs, "intgraph_" + n)
+    nrand = 200 if ctx.quick else 4000
+    rng = ctx.rng
+    runs = []
+    for i in range(nrand):
+        a = ["runs=%d" % rng.choice([1, 2, 3]), "ints=%d" % rng.choice([1, 2, 3]), "pre=%d" % rng.choice([0, 0, 1]), "timers=%d" % rng.choice([0, 0, 2]),
+             "--seed", str(ctx.seed * 7919 + i), "--spur", "0"]
+        if rng.random() < 0.5:
+            a += ["--pct", str(rng.choice([1, 2, 3])), "--pct-len", "60"]
+        runs.append(a)
+    check_interrupt_runs(ctx, binary, runs, "intrandom")
+
+
 def run(ctx):
     binary = build()
     # Layer 2 (timer queue, re-queue before callback, removal search, nested actions) refines Layer 1; every edge replayed
@@ -166,6 +226,10 @@ def run(ctx):
     nexec, nops = (800, 40) if ctx.quick else (10000, 60)
     execs = [rand_exec(ctx.rng, nops) for _ in range(nexec)]
     check_executions(ctx, binary, execs, "random")
+    # interrupt() from other threads, before or during run(): all interleavings of the protocol by TLC, schedules
+    # replayed on the real Server under the cooperative scheduler
+    run_interrupt_part(ctx)
+    ctx.assumptions.append("interrupt race: sequential consistency at the granularity of mutex calls and poll rounds")
     return vlib.finish(ctx, "model_checking",
                        "every edge of the RunLoopImpl state graphs (timer queue incl. 5 coincident due times, removal and creation "
                        "inside callbacks) and the ClientWriteImpl behaviours replayed on the real Server over the OS shim with a "
@@ -174,6 +238,12 @@ def run(ctx):
 
 
 def replay(ctx, path):
+    with open(path) as f:
+        first = f.read().strip()
+    if first.startswith("@interrupt "):
+        import shlex
+        check_interrupt_runs(ctx, build_interrupt(), [shlex.split(first[len("@interrupt "):])], "replay")
+        return vlib.finish(ctx, "model_checking", "replay")
     binary = build()
     check_executions(ctx, binary, vlib.read_ops_file(path), "replay")
     return vlib.finish(ctx, "model_checking", "replay")
